@@ -149,6 +149,7 @@ func (vt *Model) ich(ps int) {
 	col := vt.cursor.col
 	row := vt.cursor.row
 	line := vt.activeScreen[row]
+	vt.splitWide()
 	for i := vt.margin.right; i > col; i -= 1 {
 		if (i - column(ps)) < 0 {
 			continue
@@ -306,6 +307,7 @@ func (vt *Model) ed(ps int) {
 	// completely erased lines.
 	case 0:
 		vt.lastCol = false
+		vt.splitWide()
 		for r := vt.cursor.row; r < row(vt.height()); r += 1 {
 			for col := column(0); col < column(vt.width()); col += 1 {
 				if r == vt.cursor.row && col < vt.cursor.col {
@@ -352,6 +354,7 @@ func (vt *Model) el(ps int) {
 	// Erases from the cursor to the end of the line, including the cursor
 	// position. Line attribute is not affected.
 	case 0:
+		vt.splitWide()
 		for col := vt.cursor.col; col < column(vt.width()); col += 1 {
 			vt.activeScreen[r][col].erase(vt.cursor.Style.Background)
 		}
@@ -472,6 +475,7 @@ func (vt *Model) dch(ps int) {
 		ps = 1
 	}
 	row := vt.cursor.row
+	vt.splitWide()
 	for col := vt.cursor.col; col <= vt.margin.right; col += 1 {
 		if col+column(ps) > vt.margin.right {
 			vt.activeScreen[row][col].erase(vt.cursor.Style.Background)
@@ -493,6 +497,7 @@ func (vt *Model) ech(ps int) {
 		ps = 1
 	}
 
+	vt.splitWide()
 	for i := column(0); i < column(ps); i += 1 {
 		if vt.cursor.col+i == column(vt.width()) {
 			return
